@@ -36,6 +36,12 @@ Proof. exact deposit_ignores_lost. Qed.
 Theorem C19_deposit_only_on_grid : forall g p k, valid (g_shape g) k = false -> contrib g p k == 0.
 Proof. exact contrib_invalid. Qed.
 
+(* charge conservation: particles whose 8 surrounding grid points exist put exactly charge * survival on the grid *)
+Theorem C19_deposit_conserves_charge : forall g ps,
+  (forall p, In p ps -> forall c, In c (corners (cell_of (nrm g p))) -> valid (g_shape g) c = true) ->
+  sumQ (map (rho g ps) (all_idx (g_shape g))) == sumQ (map (fun p => s_q p * s_s p) ps) * inv_vol g.
+Proof. exact deposit_conserves_charge. Qed.
+
 (* gathering reproduces a uniform field exactly (weights sum to one) *)
 Theorem C19_gather_uniform : forall g e f p,
   (forall c, In c (corners (cell_of (nrm g p))) -> valid (g_shape g) c = true) ->
@@ -158,6 +164,7 @@ Print Assumptions C19_deposit_additive.
 Print Assumptions C19_deposit_perm.
 Print Assumptions C19_deposit_ignores_lost.
 Print Assumptions C19_deposit_only_on_grid.
+Print Assumptions C19_deposit_conserves_charge.
 Print Assumptions C19_gather_uniform.
 Print Assumptions C19_gather_perm_equivariant.
 Print Assumptions C19_kick_perm.
